@@ -163,6 +163,39 @@ def run_group(arg):
     return out
 
 
+FLOAT_TOL = {"l2_amplitude": 1e-9, "l1_amplitude": 5e-5, "l2_intensity": 1e-8, "l1_intensity": 1e-4}
+
+
+def float_case(arg):
+    """Outside the exact sub-domain (labelled as such): larger and non-square ROIs incl. sizes where k/n*n does not
+    come back to k in floating point (14, 24, 28), fractional positions, 1-3 modes, 1-3 slices, padding - data from
+    the fixture's independent float64 NumPy forward model; the library's loss at that truth must vanish to float32
+    precision (measured 3e-13 / 1e-6 / 1e-11 / 3e-6 on the repaired tree)."""
+    roi, ns, nm, pad, idx = arg
+    warnings.filterwarnings("ignore")
+    from harness.common import tiny_ptycho as tp
+    out = []
+    ot = ("complex", "pure_phase", "potential")[idx % 3]
+    tag = f"float reference roi={roi[0]}x{roi[1]} slices={ns} modes={nm} pad={pad} {ot}"
+    try:
+        with contextlib.redirect_stdout(io.StringIO()):
+            sim = tp.simulate(gpts=(3, 4), roi=roi, num_slices=ns, num_probe_modes=nm, obj_type=ot, fractional=True, seed=3 + idx)
+            p = tp.build(sim, obj_type=ot, obj_padding_px=pad)
+            for lt in LOSSES:
+                for bsz in (None, 5):
+                    v = tp.forward_loss(p, lt, bsz)
+                    if not np.isfinite(v) or abs(v) > FLOAT_TOL[lt]:
+                        out.append((f"C02:float-reference:{lt}", f"{tag}: batch {bsz}: loss {v:.3g} at the ground truth of data simulated by "
+                                                                  "the independent NumPy forward model"))
+                        break
+                else:
+                    continue
+                break
+    except Exception as ex:  # noqa: BLE001
+        out.append(("C02:float-reference:raised", f"{tag}: {type(ex).__name__}: {str(ex)[:200]}"))
+    return out
+
+
 def check(rep, tier, seed):
     quick = tier == "quick"
     rep.assume("exact sub-domain: ROI 2x2 / 4x4, quarter-turn phases, Gaussian-integer probes, integer positions, "
@@ -223,6 +256,18 @@ def check(rep, tier, seed):
                 seen.add(key)
                 rep.mismatch(key, msg, {"group": [{k: c[k] for k in ("ry", "rx", "ns", "nm", "par", "pert")} for c in j[1]],
                                         "message": msg})
+    # supplementary, outside the model's exact sub-domain
+    fl = [((14, 8), 2, 2, (0, 0)), ((24, 16), 2, 1, (8, 12)), ((8, 14), 1, 3, (4, 8)), ((28, 28), 3, 2, (0, 0))]
+    if not quick:
+        fl += [((16, 24), 2, 2, (8, 12)), ((12, 12), 4, 1, (0, 0)), ((14, 14), 2, 3, (8, 8)), ((24, 24), 2, 2, (12, 12)), ((6, 22), 2, 1, (0, 0))]
+    fjobs = [(roi, ns, nm, pad, i) for i, (roi, ns, nm, pad) in enumerate(fl)]
+    fres = pmap(float_case, fjobs, procs=16, chunk=1)
+    for j, probs in zip(fjobs, fres):
+        rep.add_eval(8)
+        for key, msg in probs:
+            rep.mismatch(key, msg, {"float_case": list(j), "message": msg})
+    rep.note("float_reference_cases", {"count": len(fjobs), "note": "not model-decided: the fixture's float64 NumPy forward model "
+                                       "is the reference; larger / non-square ROIs, fractional positions"})
     rule = ("cases are complete behaviours of the FwdModelZi pipeline exported by TLC per (geometry, family parameters, "
             "perturbation): exact integer patterns; each parameter group is evaluated in the library at the ground truth "
             "(all four losses x batch sizes x object types x paddings) and at TLC-certified perturbations; distinct by "
@@ -231,5 +276,12 @@ def check(rep, tier, seed):
 
 
 def replay(path):
-    print(json.dumps(json.load(open(path))["replay"], indent=1)[:3000])
+    rp = json.load(open(path))["replay"]
+    if "float_case" in rp:
+        a = rp["float_case"]
+        out = float_case((tuple(a[0]), a[1], a[2], tuple(a[3]), a[4]))
+        for o in out:
+            print(o)
+        return 1 if out else 0
+    print(json.dumps(rp, indent=1)[:3000])
     return 1
